@@ -1156,6 +1156,16 @@ class Engine:
         ok, m = self._check([z3.Not(t)])
         if ok:
             self._found.append((label, m, list(self._pc)))
+            # attributes the harness function has set on itself (h.state, h.want, ...) evaluated in the model NOW: the
+            # symbolic values of a later path must never be used to describe this path's witness
+            auto = {}
+            for k, v in list(vars(self._fn).items()) if getattr(self, "_fn", None) is not None else []:
+                try:
+                    from fv import choice as _ch
+                    auto[k] = _ch.value_in_model(m, v)
+                except Exception as e:  # noqa
+                    auto[k] = None
+            self.autosnaps.append(auto)
             # witness values must be taken on THIS path (later paths rebuild the symbolic values)
             snap = None
             if self.snapshot is not None:
@@ -1193,6 +1203,8 @@ class Engine:
         self._todo = [[]]
         self._found = []
         self.snapshots = []
+        self.autosnaps = []
+        self._fn = fn
         self.snapshot = None
         self.reached = {}
         self.n_require = 0
